@@ -6,9 +6,10 @@ import CashewsVerif.Model.Decor.Hit
 /- Driver for C14: runs one history (`call` / `adv` / `done`) on the early / soft / failover / hit model.
 
   case <early|soft|fail|hit> ttl=<ticks> inner=<ticks> hits=<n> upd=<n> bg=<0|1>   -> ok
-  call <outcome>               -> model=<fresh:s:id|stored:s:id|raised:lis|raised:unl|storeerr:lis|storeerr:unl|broken> x=<0|1> b=<0|1> n=<in flight>
-  adv <ticks>                  -> model=ok n=<in flight>
-  done <i> <outcome>           -> model=<noop|stored|skipped|failed> n=<in flight>
+  call <outcome> [<dur>]       -> model=<fresh:s:id|stored:s:id|raised:lis|raised:unl|storeerr:lis|storeerr:unl|broken> x=<0|1> b=<0|1> n=<in flight> t=<clock after>
+                                  (<dur>, default 0: ticks the function body takes if it runs inside the call)
+  adv <ticks>                  -> model=ok n=<in flight> t=<clock after>
+  done <i> <outcome>           -> model=<noop|stored|skipped|failed> n=<in flight> t=<clock after>
   outcome = ok | lis | unl | rej (the condition turns the result down)
           | preL | preU (condition / callable ttl raises a listed / unlisted exception) | setL | setU (backend.set raises)
 -/
@@ -39,7 +40,8 @@ def parseField? (name : String) (s : String) : Option Nat :=
   | _ => none
 
 def parseOp? : List String → Option DOp
-  | ["call", o] => do pure (.call (← parseOutcome? o))
+  | ["call", o] => do pure (.call (← parseOutcome? o) 0)
+  | ["call", o, d] => do pure (.call (← parseOutcome? o) (← d.toNat?))
   | ["adv", dt] => do pure (.adv (← dt.toNat?))
   | ["done", i, o] => do pure (.done (← i.toNat?) (← parseOutcome? o))
   | _ => none
@@ -89,9 +91,9 @@ def step (st : St) (line : String) : St × String :=
     | some op =>
       match st with
       | .none => (st, "bad-op")
-      | .early c s => let r := Early.step c s op; (.early c r.1, s!"{showAns r.2} n={r.1.inflight.length}")
-      | .soft c s => let r := Soft.step c s op; (.soft c r.1, s!"{showAns r.2} n=0")
-      | .fail c s => let r := Fail.step c s op; (.fail c r.1, s!"{showAns r.2} n=0")
-      | .hit c s => let r := Hit.step c s op; (.hit c r.1, s!"{showAns r.2} n={r.1.inflight.length}")
+      | .early c s => let r := Early.step c s op; (.early c r.1, s!"{showAns r.2} n={r.1.inflight.length} t={r.1.t.now}")
+      | .soft c s => let r := Soft.step c s op; (.soft c r.1, s!"{showAns r.2} n=0 t={r.1.t.now}")
+      | .fail c s => let r := Fail.step c s op; (.fail c r.1, s!"{showAns r.2} n=0 t={r.1.t.now}")
+      | .hit c s => let r := Hit.step c s op; (.hit c r.1, s!"{showAns r.2} n={r.1.inflight.length} t={r.1.t.now}")
 
 def main : IO Unit := mainLoop step St.none
